@@ -179,14 +179,22 @@ def run_one(tape, cfg):
                 want = eager(kind, C)
                 if prior and kind != "dataframe":
                     # call history: the same collection object was cloned with an omit before
-                    out.probe("prior_call_with_omit")
-                    clone(C, omit=CBc, **bkw)
+                    if tape.chance(1, 2, "prior_plain"):
+                        # ... or cloned as a whole, with the same seed (and no parents)
+                        out.probe("prior_plain_clone_same_seed")
+                        clone(C, **bkw)
+                    else:
+                        out.probe("prior_call_with_omit")
+                        clone(C, omit=CBc, **bkw)
                 C2 = bind(C, P, split_every=split_every, **bkw)
                 ctags, ptags, free = ("C", "CB"), ("P",), ()
             elif scen == "bind_dep_omit":
                 P = apply(kind, base(kind, n1, 0), "P")
                 C = apply(kind, P, "C", variant=variant)
                 want = eager(kind, C)
+                if prior and kind != "dataframe":
+                    out.probe("prior_clone_same_seed_same_omit")
+                    clone(C, omit=P, **bkw)
                 C2 = bind(C, P, omit=P, split_every=split_every, **bkw)
                 ctags, ptags, free = ("C",), ("P",), ()
             else:
@@ -194,6 +202,9 @@ def run_one(tape, cfg):
                 P = apply(kind, O, "P")
                 C = apply(kind, O, "C", variant=variant)
                 want = eager(kind, C)
+                if prior and kind != "dataframe":
+                    out.probe("prior_clone_same_seed_same_omit")
+                    clone(C, omit=O, **bkw)
                 C2 = bind(C, P, omit=O, split_every=split_every, **bkw)
                 ctags, ptags, free = ("C",), ("P",), ("O",)
             taskfns.reset()
